@@ -342,3 +342,41 @@ Proof.
     + eapply Permutation_in; [apply Permutation_sym; exact Hp|exact Hin].
   - rewrite seen_clean by assumption. exact Hu.
 Qed.
+(* per key: an equivocating validator does not disturb the convergence of the others *)
+Definition unique_stamps_of (k : Z) (s : list entry) : Prop :=
+  forall e1 e2, In e1 s -> In e2 s -> ekey e1 = k -> ekey e2 = k ->
+    na_version (emsg e1) = na_version (emsg e2) -> na_ts (emsg e1) = na_ts (emsg e2) -> e1 = e2.
+
+Theorem book_convergent_key : forall c bs1 bs2 k,
+  (forall e, ekey e = k -> (In e (seen c [] bs1) <-> In e (seen c [] bs2))) ->
+  unique_stamps_of k (seen c [] bs1) ->
+  get k (run_updates c [] bs1) = get k (run_updates c [] bs2).
+Proof.
+  intros c bs1 bs2 k Hsame Huniq.
+  pose proof (book_is_newest_seen c bs1 k) as H1. pose proof (book_is_newest_seen c bs2 k) as H2.
+  destruct (get k (run_updates c [] bs1)) as [e1|] eqn:G1; destruct (get k (run_updates c [] bs2)) as [e2|] eqn:G2.
+  - destruct H1 as [I1 D1]. destruct H2 as [I2 D2].
+    pose proof (get_key _ _ _ G1) as K1. pose proof (get_key _ _ _ G2) as K2.
+    assert (N1 : ~ newer (emsg e2) (emsg e1)) by (apply D1; [apply Hsame; assumption|exact K2]).
+    assert (N2 : ~ newer (emsg e1) (emsg e2)) by (apply D2; [apply Hsame; assumption|exact K1]).
+    destruct (newer_total _ _ N1 N2) as [Hv Ht].
+    f_equal. apply Huniq; [exact I1|apply Hsame; assumption|exact K1|exact K2|congruence|congruence].
+  - destruct H1 as [I1 _]. pose proof (get_key _ _ _ G1) as K1.
+    exfalso. apply (H2 e1); [apply Hsame; assumption|exact K1].
+  - destruct H2 as [I2 _]. pose proof (get_key _ _ _ G2) as K2.
+    exfalso. apply (H1 e2); [apply Hsame; assumption|exact K2].
+  - reflexivity.
+Qed.
+
+(* a key that is in no schedule of the history and is not announced by the node has no entry *)
+Theorem never_member_never_stored : forall chk ops k,
+  (forall c d, In (OUpdate c d) ops -> mem k c = false) ->
+  (forall k' a t, In (OAnnounce k' a t) ops -> k' <> k) ->
+  get k (run chk [] ops) = None.
+Proof.
+  intros chk ops k Hu Ha. destruct (get k (run chk [] ops)) as [e|] eqn:G; [|reflexivity].
+  destruct (book_authentic chk ops k e G) as (Hk & _ & _ & Hex).
+  apply Exists_exists in Hex. destruct Hex as (o & Ho & Hi). destruct o as [c d|k' a t]; cbn [introduced] in Hi.
+  - destruct Hi as [_ Hm]. rewrite Hk, (Hu c d Ho) in Hm. discriminate.
+  - destruct Hi as (v & ->). cbn [sign ekey] in Hk. exfalso. apply (Ha k' a t Ho). exact Hk.
+Qed.
